@@ -1,3 +1,4 @@
+import OutlineModel.Proofs.TieMisc
 import OutlineModel.Proofs.TieSalt
 import OutlineModel.Model.Auth
 import OutlineModel.Proofs.CipherList
@@ -115,5 +116,28 @@ theorem code_own_salt_recognised (getTag : Gen.Code.serverSaltGenerator → List
     (pre : List UInt8) (htag : ∀ p, 4 ≤ (getTag sg p).length) :
     Gen.Code.serverSaltGenerator.IsServerSalt getTag sg (getSalt (getTag sg) Gen.serverSaltMarkLen pre) = some true := by
   rw [code_isServerSalt getTag sg _ htag, own_salt_recognised (getTag sg) Gen.serverSaltMarkLen pre (htag pre)]
+
+
+/-- **code_marked_iff_enough_entropy**: the translated `MakeCipherEntry` (service/cipher_list.go) never panics and gives a key the
+    MARKING salt generator exactly when the model's `marked` says so — and by `marked_iff_salt_ge_20`, over the generated
+    cipher table, exactly for salts of at least 20 bytes.  This replaces the syntactic wiring fact by a proof about the code. -/
+theorem code_marked_iff_enough_entropy (saltSize : GoRT.Opaque "shadowsocks.EncryptionKey" → Int)
+    (newGen : String → GoRT.Opaque "service.ServerSaltGenerator") (rnd : GoRT.Opaque "service.ServerSaltGenerator")
+    (id secret : String) (k : GoRT.Opaque "shadowsocks.EncryptionKey") (c : Gen.CipherSpec) (hc : c ∈ Gen.ciphers)
+    (hn : saltSize k = (c.saltSize : Int)) :
+    Gen.Code.MakeCipherEntry saltSize newGen rnd id k secret =
+      some (⟨id, k, (if 20 ≤ c.saltSize then newGen secret else rnd), ⟨0⟩⟩ : Gen.Code.CipherEntry) := by
+  have hm : Gen.serverSaltMarkLen ≤ c.saltSize := by
+    have : ∀ c ∈ Gen.ciphers, Gen.serverSaltMarkLen ≤ c.saltSize := by decide
+    exact this c hc
+  rw [Tie.Misc.makeCipherEntry_tie saltSize newGen rnd id secret k c.saltSize hn hm]
+  have h := (marked_iff_salt_ge_20 c hc).1
+  by_cases h20 : 20 ≤ c.saltSize
+  · simp [h.2 h20, h20]
+  · have : marked c.saltSize Gen.serverSaltMarkLen Gen.minSaltEntropy = false := by
+      cases hmk : marked c.saltSize Gen.serverSaltMarkLen Gen.minSaltEntropy with
+      | false => rfl
+      | true => exact absurd (h.1 hmk) h20
+    simp [this, h20]
 
 end OutlineModel.Props.C08
